@@ -21,7 +21,7 @@ from typing import Any, Dict, List, Optional, Tuple
 
 PROSE = ["Spam and eggs", "A little prose here.", "Mix well; serve hot", "for 2 people or more", "Notes on the method",
          "it's 100% fine", "see *below* for `details`", "A line with a trailing backslash\\", "Crème fraîche & co",
-         "1986 was a good year", "Some text: with colon", "x = 1 a"]
+         "1986 was a good year", "Some text: with colon", "x = 1 a", "qty\tunit\tname\tnotes"]
 
 CONTAINERS = ["top", "quote", "list", "olist", "list-direct", "quote-in-list", "list-in-quote", "nested-list"]
 
@@ -68,7 +68,13 @@ class Names:
 
 def gen_stmt(rng: random.Random, names: Names, defined: List[str]) -> List[str]:
     n = names.fresh()
-    k = rng.randrange(14)
+    k = rng.randrange(17)
+    if k == 13:
+        # decomposed (NFD) spellings: base letter + combining mark(s)
+        return [rng.choice([f"1 jalapen\u0303o{n}", f"2 cre\u0300me bru\u0302le\u0301e{n}", f"1 pin\u0303a cola\u0300da{n}"])]
+    if k == 14:
+        defined.append(f"n\u0303{n}")
+        return [f"n\u0303{n} = 200g man\u0303ana e\u0301clair{n}"]
     if k == 0:
         return [f"1\titem{n}"]
     if k == 1:
@@ -124,8 +130,11 @@ def gen_block(rng: random.Random, names: Names, container: str, first_in_group: 
 def gen_prose(rng: random.Random, n_lines: int) -> List[str]:
     out: List[str] = []
     while len(out) < n_lines:
-        k = rng.randrange(7)
-        if k == 0:
+        k = rng.randrange(8)
+        if k == 7:
+            # tab-separated table-like prose (tabs only inside the lines)
+            out += [f"item{i}\t{i}\tg\tnote {i}\tx" for i in range(rng.randrange(2, 7))] + [""]
+        elif k == 0:
             out += ["## " + rng.choice(PROSE), ""]
         elif k == 1:
             out += [rng.choice(PROSE), "-" * rng.randrange(3, 8), ""]
@@ -270,6 +279,35 @@ def render(doc: Doc, eol: str = "\n", eol_rng: Optional[random.Random] = None) -
     else:
         text = eol.join(lines) + (eol if doc.final_newline else "")
     return text, lines
+
+
+# --------------------------------------------------------------------------- sibling documents
+
+def rewrap(doc: Doc, rng: random.Random) -> Optional[Doc]:
+    """A sibling of a faulty document: the same characters at the same offsets, except that some spaces of the
+    prose BEFORE the faulty block are line breaks instead (re-wrapped prose).  The faulty listing, its offset and
+    its fence are identical, its line number is not.  None when there is nothing to re-wrap."""
+    assert doc.fault is not None
+    d = copy.deepcopy(doc)
+    target = d.blocks()[d.fault["block"]]
+    changed = 0
+    for idx, (kind, it) in enumerate(d.items):
+        if kind == "block":
+            if it is target:
+                break
+            continue
+        out: List[str] = []
+        for line in it:
+            cands = [i for i in range(1, len(line) - 1)
+                     if line[i] == " " and line[i - 1].isalnum() and line[i + 1].isalnum() and line[:4].strip()]
+            if cands and rng.random() < 0.7:
+                i = rng.choice(cands)
+                out += [line[:i], line[i + 1:]]
+                changed += 1
+            else:
+                out.append(line)
+        d.items[idx] = ("lines", out)
+    return d if changed else None
 
 
 # --------------------------------------------------------------------------- faults
